@@ -490,24 +490,56 @@ Proof.
   - intros [->|[c [Hc Hx]]]; auto. left. exists c. split; auto. apply IH; auto.
 Qed.
 
-(* when neither the root's name nor any bra name contains the ket suffix (in particular when
-   no node name does, for the default suffixes), the filter on the names selects exactly the
-   ket identifiers *)
-Theorem contraction_order_s_ok : forall root_name ksuf bsuf names t,
-  is_ket_s ksuf root_name = false ->
-  (forall n, In n (ids t) -> is_ket_s ksuf (bra_id_s bsuf (names n)) = false) ->
-  contraction_order_s root_name ksuf bsuf names t = map ket_id (postorder t).
+(* a filter on the names that keeps every ket name, no bra name and not the root selects
+   exactly the ket identifiers in post-order *)
+Lemma contraction_order_s_gen : forall b root_name ksuf bsuf names t,
+  (forall s, ket_filter_s b ksuf (ket_id_s ksuf s) = true) ->
+  ket_filter_s b ksuf root_name = false ->
+  (forall n, In n (ids t) -> ket_filter_s b ksuf (bra_id_s bsuf (names n)) = false) ->
+  contraction_order_s b root_name ksuf bsuf names t = map ket_id (postorder t).
 Proof.
-  intros rn ksuf bsuf names t Hr Hb. unfold contraction_order_s, linearise_doubled.
+  intros b rn ksuf bsuf names t Hk Hr Hb. unfold contraction_order_s, linearise_doubled.
   rewrite !filter_app.
-  assert (E1 : forall l, filter (fun d => is_ket_s ksuf (name_of rn ksuf bsuf names d)) (map ket_id l) = map ket_id l).
-  { induction l as [|n l IH]; simpl; auto. rewrite is_ket_s_ket, IH. reflexivity. }
+  assert (E1 : forall l, filter (fun d => ket_filter_s b ksuf (name_of rn ksuf bsuf names d)) (map ket_id l) = map ket_id l).
+  { induction l as [|n l IH]; simpl; auto. rewrite Hk, IH. reflexivity. }
   assert (E2 : forall l, (forall n, In n l -> In n (ids t)) ->
-               filter (fun d => is_ket_s ksuf (name_of rn ksuf bsuf names d)) (map bra_id l) = []).
+               filter (fun d => ket_filter_s b ksuf (name_of rn ksuf bsuf names d)) (map bra_id l) = []).
   { induction l as [|n l IH]; intros Hl; simpl; auto. rewrite (Hb n) by (apply Hl; simpl; auto).
     apply IH. intros m Hm. apply Hl. simpl. auto. }
   rewrite E1, E2 by (intros n Hn; apply postorder_perm_ids; exact Hn).
   simpl. rewrite Hr. rewrite app_nil_r. reflexivity.
+Qed.
+
+(* the code as it stands: correct when neither the root's name nor any bra name contains the
+   ket suffix (in particular when no node name does, for the default suffixes) *)
+Theorem contraction_order_s_ok : forall root_name ksuf bsuf names t,
+  is_ket_s ksuf root_name = false ->
+  (forall n, In n (ids t) -> is_ket_s ksuf (bra_id_s bsuf (names n)) = false) ->
+  contraction_order_s true root_name ksuf bsuf names t = map ket_id (postorder t).
+Proof.
+  intros. apply contraction_order_s_gen; auto. intros s. apply is_ket_s_ket.
+Qed.
+
+Local Open Scope string_scope.
+Lemma ends_with_other : forall ksuf bsuf s, length ksuf = length bsuf -> ksuf <> bsuf ->
+  ends_with ksuf (s ++ bsuf) = false.
+Proof.
+  intros ksuf bsuf s Hl Hne. unfold ends_with. rewrite length_app, Hl.
+  replace (length s + length bsuf - length bsuf) with (length s) by lia.
+  rewrite substring_app_r. apply andb_false_iff. right. apply String.eqb_neq. congruence.
+Qed.
+Local Close Scope string_scope.
+
+(* the repaired filter: correct for all node names, whenever the two suffixes have equal length
+   and differ and the root's name does not end with the ket suffix *)
+Theorem contraction_order_s_fixed : forall root_name ksuf bsuf names t,
+  String.length ksuf = String.length bsuf -> ksuf <> bsuf ->
+  ends_with ksuf root_name = false ->
+  contraction_order_s false root_name ksuf bsuf names t = map ket_id (postorder t).
+Proof.
+  intros rn ksuf bsuf names t Hl Hne Hr. apply contraction_order_s_gen; auto.
+  - intros s. apply ends_with_app.
+  - intros n _. apply ends_with_other; auto.
 Qed.
 
 (* ---- the calls ------------------------------------------------------------------------------ *)
